@@ -287,11 +287,16 @@ class DocGen(object):
         self.next_uid = 1
         self.stored_only_p = stored_only_p        # documents without a single posting
         self.k2_independent_p = k2_independent_p  # second unique key not tied to the first
+        # vocabulary drift: (words, n) = these words stop being used after the n-th document, so their
+        # posting lists run out early in a segment while the others go on
+        self.drift = None
 
     def doc(self, key=None, sparse_p=0.25, fields_subset=None):
         rng = self.rng
         cfg = self.cfg
         ctx = cfg.ctx()
+        if self.drift is not None and self.next_uid > self.drift[1]:
+            ctx = dict(ctx, vocab=[w for w in ctx["vocab"] if w not in self.drift[0]] or ctx["vocab"])
         if key is None:
             key = rng.randrange(self.nkeys)
         d = {"k": u"k%03d" % key, "u": self.next_uid}
